@@ -142,7 +142,10 @@ func H17_order() {
 	for i := 0; i < n; i++ {
 		pk := &specPkt{Typ: specPUBLISH, Flags: q << 1, Topic: []byte("t"), Payload: []byte{byte('0' + i), vrtByte("x")}}
 		if q > 0 {
-			pk.ID = uint16(10 + i)
+			// the publisher re-uses its identifiers (the broker acknowledges at once) and may set DUP; the
+			// subscribers never acknowledge, so the forwarded copies stay in flight towards them
+			pk.ID = uint16(10 + i%2)
+			pk.Flags |= vrtB2b(vrtBool("dup"), 8)
 		}
 		p.peerSend(specEncode(pk)) // pipelined: no waiting in between
 	}
@@ -234,4 +237,61 @@ func H17_peeksize() {
 	}
 	vrtAssert("C17.peeksize_consumes_nothing", svc.in.cseq.get() == c)
 	vrtObserve("peek", total, perr != nil)
+}
+
+// H17_wrap_sequence: a sequence of packets of different sizes written by one
+// goroutine, each of them straddling the end of the outgoing ring (the ring is
+// re-positioned before each write, as laps of other traffic would): large,
+// small, medium - in every order the solver picks. What the sender would put on
+// the wire is exactly the packets, nothing behind or between them.
+func H17_wrap_sequence() {
+	bf, err := newBuffer(1)
+	if err != nil {
+		panic(err)
+	}
+	svc := &service{out: bf}
+	sizes := [3]int{vrtChoice("len0", 3), vrtChoice("len1", 3), vrtChoice("len2", 3)} // payload length classes: 1, 9, 40
+	lens := []int{1, 9, 40}
+	lap := int64(1)
+	for i := 0; i < 3; i++ {
+		n := lens[sizes[i]]
+		payload := make([]byte, n)
+		for j := range payload {
+			payload[j] = byte(16*i + j)
+		}
+		payload[0] = vrtByte("p")
+		m := message.NewPublishMessage()
+		m.SetTopic([]byte("t"))
+		m.SetPayload(payload)
+		q := byte(vrtChoice("qos", 2))
+		m.SetQoS(q)
+		exp := &specPkt{Typ: specPUBLISH, Flags: q << 1, Topic: []byte("t"), Payload: payload}
+		if q > 0 {
+			m.SetPacketID(uint16(7 + i))
+			exp.ID = uint16(7 + i)
+		}
+		want := specEncode(exp)
+		// k bytes of the packet before the end of the ring, the rest after it
+		k := int64(1 + vrtChoice("before_wrap", 3))
+		c := lap*bf.size - k
+		lap += 2
+		bf.cseq.set(c)
+		bf.pseq.set(c)
+		bf.pseq.gate = c
+		wn, werr := svc.writeMessage(m)
+		vrtAssert("C17.writes_ok", werr == nil && wn == len(want))
+		vrtAssert("C17.ring_holds_exactly_the_packet", bf.Len() == len(want))
+		var wire []byte
+		for len(wire) < bf.Len()+len(wire) && bf.Len() > 0 {
+			p, perr := bf.ReadPeek(bf.Len())
+			if perr != nil && perr != ErrBufferInsufficientData {
+				vrtAssert("C17.drain_ok", false)
+				return
+			}
+			wire = append(wire, p...)
+			bf.ReadCommit(len(p))
+		}
+		vrtAssert("C17.wrapped_packet_on_the_wire", vrtBytesEq(wire, want))
+	}
+	vrtReach("C17.wrap_sequence")
 }
